@@ -27,7 +27,13 @@ Base2 == [starts |-> <<"B">>, tenums |-> <<[name |-> "T", vars |-> <<"C">>]>>,
           nts |-> << [kind |-> "struct", name |-> "A", vars |-> <<Vr("", "tuple", <<F("_", "C", TRUE), F("", "V", FALSE)>>)>>],
                      [kind |-> "enum", name |-> "B", vars |-> <<Vr("A", "named", <<F("b", "A", FALSE)>>), Vr("B", "tuple", <<F("", "C", TRUE), F("", "C", TRUE)>>)>>],
                      [kind |-> "enum", name |-> "V", vars |-> <<>>] >>]
-Bases == {Base1, Base2}
+\* an enum with THREE variants of different shapes (so that one rename yields equally named variants that are not adjacent,
+\* and one toggle yields sequences that differ only in `$`), referenced from a tuple struct with two symbols
+Base3 == [starts |-> <<"A">>, tenums |-> <<[name |-> "T", vars |-> <<"C", "D">>]>>,
+          nts |-> << [kind |-> "struct", name |-> "A", vars |-> <<Vr("", "tuple", <<F("", "B", FALSE), F("", "C", TRUE)>>)>>],
+                     [kind |-> "enum", name |-> "B", vars |-> <<Vr("V", "tuple", <<F("", "C", TRUE)>>), Vr("W", "empty", <<>>),
+                                                               Vr("C", "named", <<F("a", "D", TRUE), F("_", "C", TRUE)>>)>>] >>]
+Bases == {Base1, Base2, Base3}
 Depth == atoi(IOEnv.DEPTH)
 
 VARIABLES f, d
